@@ -206,6 +206,16 @@ type SignerSpec struct {
 	BadSig  bool  // sign different bytes
 	SeqOff  int64 // added to the real account sequence
 	Missing bool  // leave this signer out entirely
+	// ForeignKey: the slot names Acct (its address, account number and sequence go into the signed data) but carries
+	// this other account's public key in signer_infos and a signature made with its private key
+	ForeignKey *Acct
+}
+
+func (s SignerSpec) key() cryptotypes.PrivKey {
+	if s.ForeignKey != nil {
+		return s.ForeignKey.Priv
+	}
+	return s.Acct.Priv
 }
 
 type TxSpec struct {
@@ -281,7 +291,7 @@ func (c *Chain) BuildTx(spec TxSpec) (bz []byte, err error) {
 		nums[i] = n
 		seqs[i] = uint64(int64(q) + s.SeqOff)
 		sigs = append(sigs, signing.SignatureV2{
-			PubKey:   s.Acct.Priv.PubKey(),
+			PubKey:   s.key().PubKey(),
 			Data:     &signing.SingleSignatureData{SignMode: mode},
 			Sequence: seqs[i],
 		})
@@ -296,7 +306,7 @@ func (c *Chain) BuildTx(spec TxSpec) (bz []byte, err error) {
 			ChainID:       chainID,
 			AccountNumber: nums[i],
 			Sequence:      seqs[i],
-			PubKey:        s.Acct.Priv.PubKey(),
+			PubKey:        s.key().PubKey(),
 		}
 		signBytes, err := c.TxCfg.SignModeHandler().GetSignBytes(mode, sd, b.GetTx())
 		if err != nil {
@@ -305,12 +315,12 @@ func (c *Chain) BuildTx(spec TxSpec) (bz []byte, err error) {
 		if s.BadSig {
 			signBytes = append([]byte("x"), signBytes...)
 		}
-		sig, err := s.Acct.Priv.Sign(signBytes)
+		sig, err := s.key().Sign(signBytes)
 		if err != nil {
 			return nil, err
 		}
 		sigs = append(sigs, signing.SignatureV2{
-			PubKey:   s.Acct.Priv.PubKey(),
+			PubKey:   s.key().PubKey(),
 			Data:     &signing.SingleSignatureData{SignMode: mode, Signature: sig},
 			Sequence: seqs[i],
 		})
